@@ -56,6 +56,9 @@ type FCtl struct {
 	Match     string
 	MatchKind string
 	matched   bool
+	// Hook, when non-nil, runs before the effect of every call (outside the log's lock): used to interleave
+	// another command (e.g. a rotation) at a chosen position of this command's trace.
+	Hook func(seq int, name string)
 }
 
 // Enter logs a call; it returns an injected error or panics with the crash sentinel.
@@ -75,7 +78,11 @@ func (f *FCtl) Enter(name string) (int, error) {
 		res = "crash-before"
 	}
 	f.Log = append(f.Log, Call{Seq: seq, Name: name, Result: res})
+	hook := f.Hook
 	f.mu.Unlock()
+	if hook != nil {
+		hook(seq, name)
+	}
 	switch kind {
 	case FaultError:
 		return seq, fmt.Errorf("%s: %w", name, ErrInjected)
